@@ -516,6 +516,42 @@ func c13PreparedAsk(id string, seed int64) core.Scenario {
 	}}
 }
 
+// the timeout counts from the moment the request has been handed to the actor: an ask towards an UNBUFFERED actor that
+// is busy for longer than the timeout is handed over late (Send blocks meanwhile), answered at once and must deliver
+// that answer
+func c13HandOverLate(id string, seed int64) core.Scenario {
+	return core.Scenario{ID: id, Class: "Ask.timeout", Run: func(c *core.Ctx) {
+		c.Eval(1)
+		c.Distinct(id)
+		type hAsk = fpgo.AskDef[interface{}, string]
+		actor := fpgo.Actor.New(func(self *fpgo.ActorDef[interface{}], m interface{}) {
+			switch x := m.(type) {
+			case time.Duration:
+				time.Sleep(x)
+			case *hAsk:
+				x.Reply("prompt")
+			}
+		})
+		defer actor.Close()
+		const busy, timeout = 450 * time.Millisecond, 300 * time.Millisecond
+		failures := 0
+		var last string
+		for attempt := 0; attempt < 3; attempt++ {
+			actor.Send(busy) // returns when the actor has taken it: the actor is busy from now on
+			v, err := fpgo.AskNewGenerics[interface{}, string]("q").AskOnceWithTimeout(actor, timeout)
+			if err == nil && v == "prompt" {
+				break
+			}
+			failures++
+			last = fmt.Sprintf("(%q, %v)", v, err)
+		}
+		if failures == 3 {
+			c.Violationf("timeout:in-time-reply-lost", map[string]any{"scenario": id, "class": "request handed over late to a busy unbuffered actor, answered at once"},
+				"AskOnceWithTimeout(%v) towards an unbuffered actor that is busy for %v: the request is handed over when the actor is free again and answered immediately, yet 3 of 3 attempts returned %s", timeout, busy, last)
+		}
+	}}
+}
+
 // scatter / gather from ONE goroutine: n AskChannel calls, then the answers are read in request order from an actor that
 // answers in arrival order. Requests of one sender arrive in the order they were made (C12), so nobody waits for anybody.
 func c13ScatterGather(id string, n, capacity int, seed int64) core.Scenario {
@@ -598,6 +634,12 @@ func c13Scenarios(c *core.Ctx, race bool) []core.Scenario {
 		}
 		out = append(out, c13PreparedAsk(fmt.Sprintf("prepared-ask-%d-race%v", i, race), c.Seed+int64(i)))
 	}
+	for i := 0; i < c.Pick(2, 6); i++ {
+		if race && i > 0 {
+			break
+		}
+		out = append(out, c13HandOverLate(fmt.Sprintf("hand-over-late-%d-race%v", i, race), c.Seed+int64(i)))
+	}
 	for i := 0; i < c.Pick(12, 60); i++ {
 		// (the mailbox holds all requests of a round: with a smaller one the asker's synchronous Send itself waits for the
 		// actor, which waits for the asker to read an earlier answer - a deadlock of the usage, not of the library)
@@ -641,7 +683,7 @@ func init() {
 		Meta: func(c *core.Ctx) core.Meta {
 			return core.Meta{
 				Level:       "exploration",
-				Rule:        "correlation: 1..32 concurrent askers x 1..200 asks through AskOnce / AskOnceWithTimeout(60 s) / AskChannel; the reply is a pure function of the request payload and a per-request nonce, the actor replies inline, from helper goroutines in shuffled order, or in reversed batches, so every asker can verify that it received exactly its own answer; timeouts as logical classes: 'in time' = 60 s timeout + immediate reply (an error is a violation), 'never' = timeout in {5 ms, 0, -1 ns, -1 h, 1 ns, 300 us} and no reply (the call itself is under the stuck detector), 'after' = the actor replies only after AskOnceWithTimeout has RETURNED ErrActorAskTimeout (signalled by the harness) under recover with a 10 s blocked-detector, 'queued' = the request waits behind a busy actor (mailbox capacity 0..2) beyond the asker's 3 ms timeout and is answered afterwards, 'racing' = PRNG delays around a 200-600 us timeout and the asker parked at ask.timeout.fired so that the reply lands between the timer and the close; afterwards a fresh ask with a 60 s timeout must be served; the asks of the timeout classes are built by AskNewGenerics, AskNewByOptionsGenerics / NewByOptions with caller supplied unbuffered and 1-buffered reply channels; ask objects built 3.4 s before AskOnceWithTimeout(3 s) is called (3 attempts); scatter / gather of 2..8 AskChannel calls from one goroutine read in request order (stuck detector, arrival order); multi-step histories of 300 (thorough 1500) rounds {ask whose reply lands within +-100 us of its 150-350 us timeout, then an ask with a 60 s timeout answered immediately, which must not time out}; payload kinds int/string/struct/nil; repeated under -race. distinct_nontrivial = distinct scenarios",
+				Rule:        "correlation: 1..32 concurrent askers x 1..200 asks through AskOnce / AskOnceWithTimeout(60 s) / AskChannel; the reply is a pure function of the request payload and a per-request nonce, the actor replies inline, from helper goroutines in shuffled order, or in reversed batches, so every asker can verify that it received exactly its own answer; timeouts as logical classes: 'in time' = 60 s timeout + immediate reply (an error is a violation), 'never' = timeout in {5 ms, 0, -1 ns, -1 h, 1 ns, 300 us} and no reply (the call itself is under the stuck detector), 'after' = the actor replies only after AskOnceWithTimeout has RETURNED ErrActorAskTimeout (signalled by the harness) under recover with a 10 s blocked-detector, 'queued' = the request waits behind a busy actor (mailbox capacity 0..2) beyond the asker's 3 ms timeout and is answered afterwards, 'racing' = PRNG delays around a 200-600 us timeout and the asker parked at ask.timeout.fired so that the reply lands between the timer and the close; afterwards a fresh ask with a 60 s timeout must be served; the asks of the timeout classes are built by AskNewGenerics, AskNewByOptionsGenerics / NewByOptions with caller supplied unbuffered and 1-buffered reply channels; asks handed over late to a busy unbuffered actor (busy 450 ms, timeout 300 ms, answered at once; 3 attempts); ask objects built 3.4 s before AskOnceWithTimeout(3 s) is called (3 attempts); scatter / gather of 2..8 AskChannel calls from one goroutine read in request order (stuck detector, arrival order); multi-step histories of 300 (thorough 1500) rounds {ask whose reply lands within +-100 us of its 150-350 us timeout, then an ask with a 60 s timeout answered immediately, which must not time out}; payload kinds int/string/struct/nil; repeated under -race. distinct_nontrivial = distinct scenarios",
 				Assumptions: []string{"a 60 s timeout is never hit by an immediately replying actor (safe direction only: a timeout error is a violation, finishing late is not)", "in the racing class either outcome (reply or timeout) is legal"},
 			}
 		},
